@@ -150,7 +150,7 @@ func init() {
 		if c.Kind == "soup" {
 			// value-less calls as operands are the script's own business there
 			_, _, err := verifyScript(c.Script, true)
-			if err != nil && openFinding("C18-valueless-operand") && valuelessOperand(c.Script) {
+			if err != nil && openFinding("C18-valueless-operand") && underflow(err) && valuelessOperand(c.Script) {
 				return nil
 			}
 			return err
